@@ -198,6 +198,9 @@ func extractModel(e *Encoder, o *Obligation) ([]*inputModel, bool, string) {
 			small = append(small, c.BVCmp("bvule", v.Len, c.BVLit(replayBytes, 64)))
 			reqs = append(reqs, modelReq{v.Len, func(x uint64) { im.length = x }})
 			arr := c.Select(mem, v.Base)
+			if v.K == KString {
+				arr = c.Select(e.get(e.entry, "mem:str", Arr(RefS, Arr(BV64, BV8))), v.Base)
+			}
 			for k := 0; k < replayBytes; k++ {
 				k := k
 				reqs = append(reqs, modelReq{c.Select(arr, c.BVBin("bvadd", v.Off, c.BVLit(uint64(k), 64))), func(x uint64) { im.bytes[k] = byte(x) }})
